@@ -126,6 +126,8 @@ func (h *inFlightRequestsHandler) onIncomingFrameReceived(f *frame.Frame) error 
 			verifGate("in.removed", int64(streamId))
 			if inFlight.managedStreamId {
 				if err := h.releaseStreamId(streamId); err != nil {
+					// the request is no longer registered: nothing else would complete it
+					inFlight.close(err)
 					return err
 				}
 			}
